@@ -122,3 +122,11 @@ Print Assumptions C01_source_selection_rule.
 Theorem C01_source_selection_rejects : forall p evs, 1 <= p -> gen_npc opsR (SelFrac p) evs = None.
 Proof. exact gen_npc_rejects. Qed.
 Print Assumptions C01_source_selection_rejects.
+
+Local Close Scope R_scope.
+Local Open Scope Q_scope.
+(* the translated source, executed *)
+Example C01_source_example :
+  gen_npc opsQ (SelFrac (1#2)) [3; 1] = Some 1%nat /\ gen_npc opsQ (SelFrac (9#10)) [3; 1] = Some 2%nat /\
+  gen_npc opsQ (SelFrac (3#2)) [3; 1] = None /\ gen_npc opsQ SelAll [3; 1] = Some 2%nat.
+Proof. vm_compute. repeat split; reflexivity. Qed.
